@@ -11,7 +11,10 @@ every operation (so before and after each cast); Hedger.compute_loss / price wit
 object (parameter-free: Whalley-Wilmott, Naked / a parameter-free module on prev_hedge, with one and two hedging instruments, Black-Scholes)
 used again and again while its instruments are cast and re-simulated with the same number of paths (exhaustive over {no cast, float32,
 float64} to depth 2 / 3, random histories incl. half precisions and ambient changes): hedge, hedger inputs, portfolio, P&L, loss and price
-follow the instruments.
+follow the instruments; EVERY feature (incl. Barrier up / down, Ones, Zeros, Empty, ModuleOutput of parameter-free modules) in BOTH forms
+get(None) / get(i), and the inputs / hedge / portfolio / P&L of parameter-free hedgers fed with it (beside state-independent companions only,
+and beside prev_hedge), on the grid ambient default x instrument dtype (all cast forms, all stock classes, 4 derivative classes, a change of
+the ambient default between simulation and evaluation): all in the dtype of the instrument's buffers (keys dtype:feature:*, dtype:hedger-feature:*).
 correspondence with the SYSTEM model (Model/InstrSys.lean, op "instr_sys"): (a) all the sequences above, re-read as histories of a
 system (one primary, the derivative on it, the listed option when there is one) with the result queries the predicate part computes;
 (b) exhaustive sequences (depth 3 over 10 letters; thorough: also depth 4 over 7 letters) of derivative-level operations on a Heston stock with two derivatives of
@@ -1381,4 +1384,5 @@ def check(ctx):
              "derivative (half of them with a listed option on the instrument whose price is read after every step), casts to complex dtypes in all "
              "to() forms and the constructor, loss/price with n_times in {1,2,3} at the end, both global defaults; one parameter-free hedger object reused over "
              "histories of casts / re-simulations of its instruments (5 hedgers, exhaustive over {none, f32, f64} to depth 2 quick / 3 thorough x init in {None, f64}, "
-             "plus random histories), also as long-lived hedgers on the real side of the system model; non-trivial = >= 2 operations; distinct = sha1 of canonical case")
+             "plus random histories), also as long-lived hedgers on the real side of the system model; every feature in both forms get(None) / get(i) and hedgers "
+             "fed with it on the grid ambient default x instrument dtype (predicate) and every feature of the system model's vocabulary on the same grid (model); non-trivial = >= 2 operations; distinct = sha1 of canonical case")
